@@ -178,6 +178,7 @@ func (fr *Frame) loopHead(b *ssa.BasicBlock) {
 	if spec != nil {
 		for _, inv := range spec.Invs {
 			e := fr.env(b)
+			e.atStart = true
 			e.subst = entryVals
 			t, err := e.Bool(inv.E)
 			if err != nil {
@@ -257,6 +258,7 @@ func (fr *Frame) loopHead(b *ssa.BasicBlock) {
 	if spec != nil {
 		for _, inv := range spec.Invs {
 			e := fr.env(b)
+			e.atStart = true
 			t, err := e.Bool(inv.E)
 			if err != nil {
 				continue
@@ -265,6 +267,7 @@ func (fr *Frame) loopHead(b *ssa.BasicBlock) {
 		}
 		if spec.Decreases != nil {
 			e := fr.env(b)
+			e.atStart = true
 			tv, err := e.Value(spec.Decreases.E)
 			if err != nil {
 				fr.bindingFailure(spec.Decreases, err)
@@ -352,6 +355,7 @@ func (fr *Frame) backEdge(p, h *ssa.BasicBlock, cond Term) {
 	}
 	for _, inv := range spec.Invs {
 		e := fr.env(h)
+		e.atStart = true
 		e.subst = subst
 		t, err := e.Bool(inv.E)
 		if err != nil {
@@ -364,6 +368,7 @@ func (fr *Frame) backEdge(p, h *ssa.BasicBlock, cond Term) {
 	if spec.Decreases != nil {
 		if d0, ok := fr.loopDecr[h]; ok {
 			e := fr.env(h)
+			e.atStart = true
 			e.subst = subst
 			tv, err := e.Value(spec.Decreases.E)
 			if err == nil {
@@ -1216,32 +1221,41 @@ func (c *Ctx) assertNilMapEmpty(fr *Frame, mt *types.Map) {
 }
 
 // lenAxioms states, for the current (domain, length) pair of a map type, that
-// the length counter is the cardinality of the domain as far as emptiness is
-// concerned: len >= 0, a member implies len > 0, len > 0 implies a member.
-func (c *Ctx) lenAxioms(st *State, mt *types.Map) {
+// the length counter is consistent with the domain: len >= 0 and a member
+// implies len > 0 (quantified; these create no new terms). Witness facts
+// (len > 0 yields a member, len > 1 yields two distinct members, two distinct
+// members imply len > 1) are stated only for the particular map term whose
+// length is taken, to keep quantifier instantiation finite.
+func (c *Ctx) lenAxioms(st *State, mt *types.Map, m Term) {
 	md, _, ml := mapComps(c, mt)
 	ks := c.sortOf(mt.Key())
 	d := c.comp(st, md, "(Array Ref (Array "+ks+" Bool))")
 	l := c.comp(st, ml, "(Array Ref Int)")
 	key := "lenax:" + d + ":" + l
-	if c.declared[key] {
+	if !c.declared[key] {
+		c.declared[key] = true
+		c.assert("(forall ((m Ref)) (! (>= (select " + l + " m) 0) :pattern ((select " + l + " m))))")
+		c.assert("(forall ((m Ref) (k " + ks + ")) (! (=> (select (select " + d + " m) k) (> (select " + l + " m) 0)) :pattern ((select (select " + d + " m) k))))")
+		c.assumed["len(map) is modelled by a counter kept consistent with the domain (len >= 0; len > 0 iff some key is present; len > 1 iff two distinct keys are present)"] = true
+	}
+	if m == "" || strings.Contains(m, "q_") {
 		return
 	}
-	c.declared[key] = true
-	c.n++
-	wit := fmt.Sprintf("lenwit_%d", c.n)
-	c.emit(fmt.Sprintf("(declare-fun %s (Ref) %s)", wit, ks))
-	c.assert("(forall ((m Ref)) (! (and (>= (select " + l + " m) 0) (=> (> (select " + l + " m) 0) (select (select " + d + " m) (" + wit + " m)))) :pattern ((select " + l + " m))))")
-	c.assert("(forall ((m Ref) (k " + ks + ")) (! (=> (select (select " + d + " m) k) (> (select " + l + " m) 0)) :pattern ((select (select " + d + " m) k))))")
-	// two-element facts: len > 1 yields a second member; two distinct members imply len >= 2
-	wit2 := fmt.Sprintf("lenwit2_%d", c.n)
-	c.emit(fmt.Sprintf("(declare-fun %s (Ref) %s)", wit2, ks))
-	c.assert("(forall ((m Ref)) (! (=> (> (select " + l + " m) 1) (and (select (select " + d + " m) (" + wit2 + " m)) (not (= (" + wit2 + " m) (" + wit + " m))))) :pattern ((select " + l + " m))))")
-	c.assert("(forall ((m Ref) (k1 " + ks + ") (k2 " + ks + ")) (! (=> (and (select (select " + d + " m) k1) (select (select " + d + " m) k2) (not (= k1 k2))) (> (select " + l + " m) 1)) :pattern ((select (select " + d + " m) k1) (select (select " + d + " m) k2))))")
-	c.assumed["len(map) is modelled by a counter kept consistent with the domain (len >= 0; len > 0 iff some key is present)"] = true
+	wkey := key + ":" + m
+	if c.declared[wkey] {
+		return
+	}
+	c.declared[wkey] = true
+	w1 := c.fresh("lenwit", ks)
+	w2 := c.fresh("lenwit", ks)
+	ln := "(select " + l + " " + m + ")"
+	dom := "(select " + d + " " + m + ")"
+	c.assert("(=> (> " + ln + " 0) (select " + dom + " " + w1 + "))")
+	c.assert("(=> (> " + ln + " 1) (and (select " + dom + " " + w1 + ") (select " + dom + " " + w2 + ") (not (= " + w1 + " " + w2 + "))))")
+	c.assert("(forall ((k1 " + ks + ") (k2 " + ks + ")) (! (=> (and (select " + dom + " k1) (select " + dom + " k2) (not (= k1 k2))) (> " + ln + " 1)) :pattern ((select " + dom + " k1) (select " + dom + " k2))))")
 }
 
-func (fr *Frame) mapLenFacts(mt *types.Map, m Term) { fr.c.lenAxioms(fr.st, mt) }
+func (fr *Frame) mapLenFacts(mt *types.Map, m Term) { fr.c.lenAxioms(fr.st, mt, m) }
 
 func (fr *Frame) mapStore(mt *types.Map, m, k, v Term) {
 	c := fr.c
